@@ -102,7 +102,29 @@ def container_ops(rng, dump, parent_kind, child_kind, list_key, back_key, names,
     return {"t": tSet, pk: P, "xs": xs}
 
 
-def gen_op(rng, dump, profile="c01"):
+def gen_compound(rng, D, veto):
+    """compound constructors that create several pins / wires in one call; `veto`: a guard listener is present and
+    may refuse the k-th pin / wire add (k >= 0)"""
+    kind = rng.choice(["createPins", "createWires", "createPortPins", "createCableWires"])
+    n = rng.randint(1, 3)
+    va = rng.randrange(n) if (veto and rng.random() < 0.5) else None
+    nq, nw = len(D["pin"]), len(D["wire"])
+    if kind == "createPins" and _ids(D, "port") and nq + n <= MAXN["pin"]:
+        return {"t": kind, "p": rng.choice(_ids(D, "port")), "qs": list(range(nq, nq + n)), "veto_at": va}
+    if kind == "createWires" and _ids(D, "cable") and nw + n <= MAXN["wire"]:
+        return {"t": kind, "c": rng.choice(_ids(D, "cable")), "ws": list(range(nw, nw + n)), "veto_at": va}
+    if kind == "createPortPins" and _ids(D, "definition") and nq + n <= MAXN["pin"] and len(D["port"]) < MAXN["port"]:
+        return {"t": kind, "d": rng.choice(_ids(D, "definition")), "p": _fresh(D, "port"), "qs": list(range(nq, nq + n)), "veto_at": va}
+    if kind == "createCableWires" and _ids(D, "definition") and nw + n <= MAXN["wire"] and len(D["cable"]) < MAXN["cable"]:
+        return {"t": kind, "d": rng.choice(_ids(D, "definition")), "c": _fresh(D, "cable"), "ws": list(range(nw, nw + n)), "veto_at": va}
+    return None
+
+
+def gen_op(rng, dump, profile="c01", compound=False, veto=False):
+    if compound and rng.random() < 0.06:
+        op = gen_compound(rng, dump, veto)
+        if op is not None:
+            return op
     p_valid = {"c01": 0.8, "c02": 0.85, "c14": 0.35}.get(profile, 0.8)
     valid = rng.random() < p_valid
     w = {"lib": 1, "def": 2, "port": 4, "cable": 3, "child": 4, "pin": 5, "wire": 4, "conn": 8, "ref": 5, "top": 1, "new": 1}
